@@ -13,6 +13,7 @@ import (
 
 // checkQRRoundTrip returns the reader's result (nil if the encoder rejected the content).
 func checkQRRoundTrip(t TB, c QRCase) *ref.QRResult {
+	noteCase("C01", "qr-roundtrip", c)
 	const P, K = "C01", "qr-roundtrip"
 	res, ok := qrDecodeChecked(t, P, K, c)
 	want := qrExpectedMinVersion(c)
@@ -77,6 +78,7 @@ func c01Account(st *Stats, c QRCase, res *ref.QRResult) {
 }
 
 func TestC01Rapid(t *testing.T) {
+	foreignWarmup("qr")
 	st := NewStats("C01", "rapid")
 	runRapid(t, st, func(rt *rapid.T) {
 		c := genQRCase(rt)
@@ -91,6 +93,7 @@ func TestC01Rapid(t *testing.T) {
 // TestC01Sweep: every (version, level) x {numeric, alphanumeric, byte} once at exactly the capacity
 // of that version (thorough: also at the smallest length that needs the version, and via Auto).
 func TestC01Sweep(t *testing.T) {
+	foreignWarmup("qr")
 	st := NewStats("C01", "sweep")
 	defer st.Flush()
 	ct := &collectTB{}
